@@ -35,7 +35,7 @@ Section ChainSound.
       0 <= consumed <= srcSize /\ (lim <> FillOutput -> consumed = srcSize) /\
       spec_decode (seg vrd lo s0) out = Some (seg vrd s0 (s0 + consumed)) /\
       (lim <> FillOutput -> strict_valid (seg vrd lo s0) out = Some (seg vrd s0 (s0 + consumed))) /\
-      ret = Z.of_nat (length out) /\ TB t (iend + 1)
+      ret = Z.of_nat (length out) /\ TB t iend
     | _ => True
     end.
 
@@ -47,7 +47,7 @@ Section ChainSound.
   (* ---- _last_literals ---- *)
   Lemma c_last_literals_sound s oend :
     out_ok (c_rout s) (c_anchor s) -> s0 <= c_anchor s <= iend ->
-    c_op s = Z.of_nat (length (c_rout s)) -> TB (c_tabs s) (iend + 1) ->
+    c_op s = Z.of_nat (length (c_rout s)) -> TB (c_tabs s) iend ->
     RSpec (c_last_literals vrd lim s0 srcSize s oend).
   Proof.
     intros (ss & Hr & Hv & He & Hend) Ha Hop HT. pose proof climits as (L1 & L2 & L3).
@@ -119,7 +119,7 @@ Section ChainSound.
     out_ok (c_rout s) (c_anchor s) -> s0 <= c_anchor s <= c_ip s ->
     c_op s = Z.of_nat (length (c_rout s)) ->
     match_ok vrd lo (c_ip s) off ml -> c_ip s + ml <= matchlimit -> c_ip s <= mflimit ->
-    TB (c_tabs s) (iend + 1) ->
+    TB (c_tabs s) iend ->
     RSpec (c_dest_overflow vrd lim s0 srcSize s ml off oend).
   Proof.
     intros Ho Ha Hop Hm Hml Hipm HT. pose proof climits as (L1 & L2 & L3).
@@ -150,7 +150,7 @@ Section ChainSound.
   (* ---- one sequence: LZ4HC_encodeSequence, or the overflow epilogue ---- *)
   Lemma c_encode_sound s ml off oend :
     Base s -> c_ip s <= mflimit -> match_ok vrd lo (c_ip s) off ml -> c_ip s + ml <= matchlimit ->
-    TB (c_tabs s) (iend + 1) ->
+    TB (c_tabs s) iend ->
     match c_encode vrd lim s0 srcSize s ml off oend with
     | inl s' => Base s' /\ c_ip s' = c_ip s + ml /\ c_anchor s' = c_ip s + ml /\ c_tabs s' = c_tabs s
     | inr r => RSpec r
